@@ -73,29 +73,35 @@ func cacheEpisode(c *Ctx, n int, cfg cacheCfg) {
 	// floor[k]: a version such that an invalidation caused by a write of at least that version has been
 	// processed by the reader client (set only AFTER the callback was observed)
 	floor := make([]atomic.Int64, cfg.keys)
-	invSeen := make([]atomic.Int64, cfg.keys) // number of invalidation callbacks naming key k (or flush)
-	keyIdx := func(k string) int { i, _ := strconv.Atoi(strings.TrimPrefix(k, "k")); return i }
+	// The floor of a key is raised only after a BARRIER: a fresh key of the same slot (same pipe of the
+	// multiplexer) is made tracked on the reader, written after the versioned write, and its invalidation
+	// callback is seen once per connection the server pushed it to. Pushes of one connection are processed
+	// in order, so every connection that can serve the key has processed the key's own invalidation first.
+	// (Counting callbacks that merely NAME the key is unsound: with BCAST and two multiplexed connections
+	// the other connection's callback, or the nil callback of a connection killed in an earlier round,
+	// would be attributed to this write.)
+	var nilSeen atomic.Int64 // nil callbacks: one per flushed pipe (killed connection) or server flush push
+	var barMu sync.Mutex
+	barSeen := map[string]int{}
 	opt := rueidis.ClientOption{
 		InitAddress: []string{"fake:6379"}, DialCtxFn: srv.Dial, ForceSingleClient: true, PipelineMultiplex: cfg.multiplex,
 		OnInvalidations: func(ms []rueidis.RedisMessage) {
 			if ms == nil {
-				for i := range invSeen {
-					invSeen[i].Add(1)
-				}
+				nilSeen.Add(1)
 				return
 			}
 			for _, m := range ms {
-				if s, err := m.ToString(); err == nil && strings.HasPrefix(s, "k") {
-					if i := keyIdx(s); i >= 0 && i < cfg.keys {
-						invSeen[i].Add(1)
-					}
+				if s, err := m.ToString(); err == nil && strings.HasPrefix(s, "{") {
+					barMu.Lock()
+					barSeen[s]++
+					barMu.Unlock()
 				}
 			}
 		},
 	}
 	switch cfg.mode {
 	case "bcast":
-		opt.ClientTrackingOptions = []string{"PREFIX", "k", "BCAST"}
+		opt.ClientTrackingOptions = []string{"PREFIX", "k", "PREFIX", "{k", "BCAST"}
 	case "optout":
 		opt.ClientTrackingOptions = []string{"OPTOUT"}
 	}
@@ -190,13 +196,22 @@ func cacheEpisode(c *Ctx, n int, cfg cacheCfg) {
 			}
 		}(r)
 	}
-	// writer: bump a key, wait until the reader connection has processed an invalidation for it, raise the floor
+	// writer: bump a key, pass the barrier, raise the floor
+	waitFor := func(pred func() bool) bool {
+		deadline := time.Now().Add(300 * time.Millisecond)
+		for !pred() {
+			if time.Now().After(deadline) {
+				return false
+			}
+			time.Sleep(200 * time.Microsecond)
+		}
+		return true
+	}
+	var killsTotal int64
 	for round := 0; round < cfg.rounds; round++ {
 		k := round % cfg.keys
 		key := fmt.Sprintf("k%d", k)
-		// make sure the key is tracked for the reader (it is read continuously); remember the callback count
 		time.Sleep(time.Millisecond)
-		before := invSeen[k].Load()
 		version[k]++
 		v := version[k]
 		if cfg.flushes && round%7 == 6 {
@@ -211,25 +226,52 @@ func cacheEpisode(c *Ctx, n int, cfg cacheCfg) {
 		}
 		if cfg.kills && round%9 == 8 {
 			for id := 1; id <= srv.NumConns(); id++ {
-				if ci, ok := srv.Conn(id); ok && ci.Tracking {
+				if ci, ok := srv.Conn(id); ok && ci.Tracking && !ci.Closed {
 					srv.Kill(id)
+					killsTotal++
 				}
 			}
 			time.Sleep(2 * time.Millisecond)
 		}
-		// the floor may only be raised once the reader has processed an invalidation caused by this write (or a later one)
-		deadline := time.Now().Add(300 * time.Millisecond)
-		for invSeen[k].Load() == before && time.Now().Before(deadline) {
-			time.Sleep(200 * time.Microsecond)
-		}
-		if invSeen[k].Load() != before {
-			if cur := floor[k].Load(); v > cur {
-				floor[k].Store(v)
+		// 1. every pipe whose connection was killed has dropped its cache (one nil callback each; a flush
+		//    push also gives one, so those the server queued are required on top: a lost one only delays)
+		needNil := killsTotal
+		for _, o := range srv.Outs() {
+			if o.IsPush && o.Kind == "invalidate" && o.Flush {
+				needNil++
 			}
-			c.Hit("inv:processed")
-		} else {
-			c.Hit("inv:not-observed(key not tracked at write time)")
 		}
+		if !waitFor(func() bool { return nilSeen.Load() >= needNil }) {
+			c.Hit("inv:not-observed(killed pipe not yet flushed)")
+			continue
+		}
+		// 2. the barrier key: same slot as the key, hence the same pipe; tracked by reading it (BCAST: by prefix)
+		barrier := fmt.Sprintf("{%s}b%d", key, round)
+		if cfg.mode != "bcast" {
+			if err := reader.DoCache(ctx, reader.B().Get().Key(barrier).Cache(), ttl).Error(); err != nil && !rueidis.IsRedisNil(err) {
+				c.Hit("inv:not-observed(barrier read failed)")
+				continue
+			}
+		}
+		writer.Do(ctx, writer.B().Set().Key(barrier).Value("b").Build())
+		recipients := 0
+		for _, o := range srv.Outs() {
+			if o.IsPush && o.Kind == "invalidate" && len(o.Args) == 1 && o.Args[0] == barrier {
+				recipients++
+			}
+		}
+		if recipients == 0 {
+			c.Hit("inv:not-observed(barrier not tracked)")
+			continue
+		}
+		if !waitFor(func() bool { barMu.Lock(); defer barMu.Unlock(); return barSeen[barrier] >= recipients }) {
+			c.Hit("inv:not-observed(barrier push lost)")
+			continue
+		}
+		if cur := floor[k].Load(); v > cur {
+			floor[k].Store(v)
+		}
+		c.Hit("inv:processed")
 	}
 	close(stop)
 	wg.Wait()
@@ -386,7 +428,7 @@ func runCacheE2E(c *Ctx) {
 
 func init() {
 	suites["cachee2e"] = suite{
-		rule: "end-to-end client-side-caching histories on the real client against fakeredis: tracking modes optin/bcast/optout x built-in store / NewSimpleCacheAdapter x {plain, FLUSHALL + MGET + Redis>=7 invalidation order, connection kills + short TTL + multiplexing}; 3 reader goroutines issue DoCache (GET, MGET) continuously while a writer client bumps per-key versions and raises a per-key floor only after the reader's OnInvalidations callback has fired; oracle: a hit returned by a call that started after the floor was raised must carry a version >= floor, every value belongs to its key; single-flight episodes: 8 concurrent cold reads x {ok, error reply, dropped connection, aborted EXEC}: one GET on the wire, all waiters get the reply/error, errors are not cached; non-trivial = a cache hit observation / a flight episode",
+		rule: "end-to-end client-side-caching histories on the real client against fakeredis: tracking modes optin/bcast/optout x built-in store / NewSimpleCacheAdapter x {plain, FLUSHALL + MGET + Redis>=7 invalidation order, connection kills + short TTL + multiplexing}; 3 reader goroutines issue DoCache (GET, MGET) continuously while a writer client bumps per-key versions and raises a per-key floor only after a barrier (a fresh same-slot key made tracked, written after the versioned write, its invalidation callback seen once per connection it was pushed to, and every killed pipe flushed); oracle: a hit returned by a call that started after the floor was raised must carry a version >= floor, every value belongs to its key; single-flight episodes: 8 concurrent cold reads x {ok, error reply, dropped connection, aborted EXEC}: one GET on the wire, all waiters get the reply/error, errors are not cached; non-trivial = a cache hit observation / a flight episode",
 		run:  runCacheE2E,
 	}
 }
